@@ -130,6 +130,58 @@ def inject(dst, appends, contracts):
     return notes
 
 
+def playback(dst, gwork, env, base_cmd, harness, timeout=1500):
+    """Counterexample of a failed harness: Kani's concrete playback values, and the generated unit test run natively against the
+    real crate (real memchr: the shim is not used for the native run)."""
+    res = dict(harness=harness, values=None, test=None, native_run=None)
+    try:
+        cmd = [c for c in base_cmd if c not in ("-j",)]
+        # strip "-j N" and the harness list
+        out_cmd, skip = [], 0
+        for i, c in enumerate(base_cmd):
+            if skip:
+                skip -= 1
+                continue
+            if c in ("-j", "--harness"):
+                skip = 1
+                continue
+            out_cmd.append(c)
+        cmd = out_cmd + ["-Z", "concrete-playback", "--concrete-playback=inplace", "--harness", harness]
+        p = subprocess.run(cmd, cwd=dst, env=env, capture_output=True, text=True, timeout=timeout)
+        m = re.search(r"- (kani_concrete_playback_\w+)", p.stdout + p.stderr)
+        if not m:
+            res["native_run"] = "Kani produced no concrete playback test for this failure"
+            return res
+        tname = m.group(1)
+        body = None
+        for root, _d, files in os.walk(os.path.join(dst, "src")):
+            for fn in files:
+                t = open(os.path.join(root, fn)).read()
+                k = t.find("fn " + tname)
+                if k >= 0:
+                    a = t.rfind("#[test]", 0, k)
+                    b = t.find("\n}", k)
+                    body = t[a:b + 2]
+        res["test"] = body
+        res["values"] = re.findall(r"// (.*)\n\s*vec!\[", body or "")
+        # native run in a copy without the memchr patch
+        pb = os.path.join(gwork, "playback_copy")
+        shutil.rmtree(pb, ignore_errors=True)
+        shutil.copytree(dst, pb, ignore=shutil.ignore_patterns("target"))
+        ct = open(os.path.join(pb, "Cargo.toml")).read()
+        ct = re.sub(r"\n\[patch\.crates-io\]\nmemchr = [^\n]*\n", "\n", ct)
+        open(os.path.join(pb, "Cargo.toml"), "w").write(ct)
+        env2 = dict(env, CARGO_TARGET_DIR=os.path.join(gwork, "target_playback"))
+        q = subprocess.run(["cargo", "kani", "playback", "-Z", "concrete-playback", "--", tname], cwd=pb, env=env2, capture_output=True, text=True, timeout=timeout)
+        txt = q.stdout + "\n" + q.stderr
+        keep = [l for l in txt.split("\n") if re.search(r"panicked|assertion|test result|^test |FAILED|error(\[|:)", l)]
+        res["native_run"] = "\n".join(keep[-25:]) or txt[-800:]
+        res["native_exit"] = q.returncode
+    except Exception as e:  # playback is best effort; the violation is reported regardless
+        res["native_run"] = f"playback failed: {e}"
+    return res
+
+
 def run_group(group, repo="/repo", work=None, tier="quick", prop=None, only=None, jobs=8, timeout=3000):
     t0 = time.time()
     res = dict(group=group, status="inconclusive", reason="", harnesses=[], cmds=[], trusted=["A-memchr: memchr crate replaced by naive loops (cpuid inline asm unsupported by Kani)"], known_hits=[])
@@ -239,6 +291,9 @@ def run_group(group, repo="/repo", work=None, tier="quick", prop=None, only=None
             hh["ok"] = True
             hh["finding"] = h["finding"]
         res["harnesses"].append(hh)
+    for hh in res["harnesses"]:
+        if not hh["ok"] and not hh.get("expect_fail"):
+            hh["playback"] = playback(dst, gwork, env, cmd, hh["name"])
     if missing:
         res["reason"] = f"harnesses produced no verdict (timeout/oom/unsupported?): {missing}; tail: {out[-400:]}"
         res["status"] = "inconclusive"
